@@ -500,6 +500,35 @@ def set_backend_sequences(ctx, LOG):
         ctx.check('backend module lazily imported', 'vmonbk_d' in sys.modules and mido.backend.loaded,
                   'load-flag', case, None)
         n += 3
+        # a set_backend() that fails chooses nothing: the previous backend stays bound everywhere
+        FNS = ('open_input', 'open_output', 'open_ioport', 'get_input_names', 'get_output_names', 'get_ioport_names')
+        for prev in ('vmonbk_a/ALSA', 'vmonbk_c'):
+            for bad, kw in (('vmonbk_no_such_module', {'load': True}), ('vmonbk_no_such_module/API', {'load': True}),
+                            ('', {'load': True}), (5, {})):
+                purge()
+                mido.set_backend(prev)
+                before = (mido.backend,) + tuple(getattr(mido, fn) for fn in FNS)
+                case = {'kind': 'set_backend', 'seq': 'failed', 'previous': prev, 'failing': repr(bad), 'kwargs': kw}
+                try:
+                    mido.set_backend(bad, **kw)
+                    raised = None
+                except Exception as exc:
+                    raised = exc
+                if raised is None:
+                    continue        # accepted: nothing to judge here
+                after = (mido.backend,) + tuple(getattr(mido, fn) for fn in FNS)
+                ctx.check('set_backend rebinds top-level functions',
+                          all(a is b or a == b for a, b in zip(before, after)) and after[0] is before[0],
+                          'failed-set_backend-rebound', case,
+                          lambda: {'raised': repr(raised), 'mido.backend': repr(mido.backend), 'previous': repr(before[0]),
+                                   'open_input bound to': repr(getattr(mido.open_input, '__self__', None))})
+                del LOG[:]
+                mido.open_output('z')
+                mod, _, api = prev.partition('/')
+                got = [e[:3] for e in LOG if e[0] != 'import']
+                ctx.check('set_backend rebinds top-level functions', got == [('Output', mod, 'z')],
+                          'failed-set_backend-calls', case, lambda: got)
+                n += 1
     except Exception as exc:
         ctx.fail('no exception', f'set_backend:{type(exc).__name__}', {'kind': 'set_backend'},
                  f'{type(exc).__name__}: {exc}')
